@@ -804,6 +804,12 @@ class NativeFormatter(Formatter):
             if (
                 len(re.findall(search_pattern, s)) > 0
             ):  # if placeholders exist in s that match the key of the current block_comment
+                if key == header_key:
+                    # Only the occurrence the output begins with is the header. An identical block comment
+                    # further down carries the same placeholder; it is written as it is, without the default header.
+                    s = re.sub(search_pattern, re.sub(r"\\", "\\\\\\\\", block_comment), s, count=1)
+                    block_comments_inserted_so_far += block_comment
+                    block_comment = s_dict.block_comments[key]
                 # Substitude the placehlder with the actual block_comment
                 s = re.sub(search_pattern, re.sub(r"\\", "\\\\\\\\", block_comment), s)  # no comment
                 # Document which block comments we already inserted.
